@@ -78,6 +78,8 @@ def header_plan(model: Model, folder: Folder, fi: FuncInfo) -> tuple[list[dict],
             for e in val.elts:
                 if isinstance(e, ast.Call) and model.call_matches(mod, e, 'NotifyError'):
                     err = _notify_pair(folder, fi, e)
+        if err is None:
+            facts.setdefault('plain_exits', []).append(st)
         tests = [st.test]
         if isinstance(st.test, ast.BoolOp) and isinstance(st.test.op, ast.Or):
             vals = list(st.test.values)
@@ -209,6 +211,18 @@ def check(model: Model, run: Run) -> None:
                 fi.loc(p['node']) if p else fi.loc(),
                 'the %s check with NotifyError%s must be a function-level early exit before the body is read; found %s' % (w[0], w[1], got),
             )
+        # nothing is handed to the caller as a good message before the last of the three checks
+        tl = next((p for p in plan if p['kind'] == 'type-length'), None)
+        early = [st for st in facts.get('plain_exits', []) if tl is not None and reads and reads[0].lineno < st.lineno < tl['line']]
+        run.check(
+            not early,
+            fi.qualname,
+            'no message leaves the reader before the per-type length check',
+            fi.loc(early[0]) if early else fi.loc(),
+            'an exit without error (%s) sits between the header read and the per-type Message.Length check: a header-only OPEN / UPDATE / '
+            'NOTIFICATION / ROUTE-REFRESH (length 19) is handed to the decoders instead of being refused with 1/2 (a 19 byte '
+            'NOTIFICATION then resets the session as "notification received 0/0")' % (norm(early[0].test) if early else ''),
+        )
         # order marker < range < type-length
         order = [p['kind'] for p in plan if p['kind'] in ('marker', 'range', 'type-length')]
         run.check(order == ['marker', 'range', 'type-length'], fi.qualname, 'check order %s' % order, fi.loc(), 'checks must run marker, range, per-type')
